@@ -37,7 +37,8 @@ EXEC_LOOP = {"name": "interpreter_main_loop_stays_inside_scratchpad_and_dataset"
              "loop_contracts": True, # every loop of execute except the main loop (id 11: its back edge follows those of the 10 loops nested in it) is unrolled before dfcc
              "pre_unwindset": ["InterpretedVm_execute.%d:9" % k for k in list(range(0, 11)) + [12, 13, 14]], "unwind": 24, "cbmc_flags": ["--object-bits", "12"],
              "checks": ["--bounds-check", "--pointer-check", "--div-by-zero-check", "--undefined-shift-check", "--signed-overflow-check"],
-             "expect_classes": ["precondition", "loop_invariant_step", "postcondition"], "expect_min": 30, "timeout": 1800, "mem_gb": 30, "weight": 6}
+             "expect_classes": ["precondition", "loop_invariant_step", "postcondition"], "expect_min": 30, "timeout": 1800, "mem_gb": 30, "weight": 6,
+             "replay": {"prog": "replay_exec_loop.cpp", "sources": "lib", "flags": ["-O1"], "no_args": True}}
 OBLIGATIONS = [
     EXEC_LOOP,
     layout("jit_program_fits_below_superscalar_area", 0),
